@@ -266,6 +266,9 @@ def read_cases(path):
     return cases
 
 
+TMPSUF = '.tmp%d' % os.getpid()   # two checks may share a cache directory
+
+
 def harness_run(ctx, mode, n, profile='default', extra=(), tag=None):
     """Run the harness (real nject) then the Lean model driver on its output. Cached per ctx.dir."""
     tag = tag or '%s-%s-%d' % (mode, profile, n)
@@ -277,7 +280,7 @@ def harness_run(ctx, mode, n, profile='default', extra=(), tag=None):
             ctx.violations.append(('harness does not build against /repo', write_replay(ctx, 'harness_build.txt', log[-6000:]), False))
             return None, None
         start = 0
-        with open(impl + '.tmp', 'w') as out:
+        with open(impl + TMPSUF, 'w') as out:
             while True:
                 p = subprocess.run([hb, mode, '-seed', str(ctx.seed), '-n', str(n), '-profile', profile, '-start', str(start)] + list(extra),
                                    stdout=subprocess.PIPE, stderr=subprocess.PIPE, text=True, timeout=3600,
@@ -295,17 +298,17 @@ def harness_run(ctx, mode, n, profile='default', extra=(), tag=None):
             ctx.violations.append(('harness crashed (exit %d)' % p.returncode,
                                    write_replay(ctx, 'harness_crash.txt', p.stderr[-6000:]), False))
             return None, None
-        os.rename(impl + '.tmp', impl)
+        os.rename(impl + TMPSUF, impl)
         ok, log = lean_build(('njmodel',))
         if not ok:
             ctx.violations.append(('model driver does not build', write_replay(ctx, 'lean_build_failed.txt', log[-6000:]), False))
             return None, None
-        with open(impl) as inp, open(model + '.tmp', 'w') as out:
+        with open(impl) as inp, open(model + TMPSUF, 'w') as out:
             p = subprocess.run([model_bin()], stdin=inp, stdout=out, stderr=subprocess.PIPE, text=True, timeout=3600)
         if p.returncode != 0:
             ctx.violations.append(('model driver crashed', write_replay(ctx, 'model_crash.txt', p.stderr[-6000:]), False))
             return None, None
-        os.rename(model + '.tmp', model)
+        os.rename(model + TMPSUF, model)
     return read_cases(impl), read_cases(model)
 
 
@@ -330,12 +333,12 @@ def flat_run(ctx, mode, n):
         if not ok:
             ctx.violations.append(('model driver does not build', write_replay(ctx, 'lean_build_failed.txt', log[-6000:]), False))
             return None, None
-        with open(impl) as inp, open(model + '.tmp', 'w') as out:
+        with open(impl) as inp, open(model + TMPSUF, 'w') as out:
             p = subprocess.run([model_bin()], stdin=inp, stdout=out, stderr=subprocess.PIPE, text=True, timeout=3600)
         if p.returncode != 0:
             ctx.violations.append(('model driver crashed', write_replay(ctx, 'model_crash.txt', p.stderr[-6000:]), False))
             return None, None
-        os.rename(model + '.tmp', model)
+        os.rename(model + TMPSUF, model)
     return [l for l in open(impl).read().split('\n') if l], [l for l in open(model).read().split('\n') if l]
 
 # ---------------------------------------------------------------- known findings
